@@ -40,7 +40,7 @@ func c16Gen(t *rapid.T) c16Case {
 	n := rapid.IntRange(2, hx.Pick(12, 32)).Draw(t, "goroutines")
 	c := c16Case{Procs: rapid.SampledFrom([]int{1, 2, 4, 16}).Draw(t, "procs"), Yield: rapid.Bool().Draw(t, "yield"), Rounds: hx.Pick(2, 3),
 		Cold: rapid.IntRange(0, 2).Draw(t, "cold") == 0}
-	kinds := []string{"record", "record", "record", "run", "sign", "verifysig", "dumpload", "verify", "loadkey"}
+	kinds := []string{"record", "record", "record", "run", "sign", "verifysig", "dumpload", "verify", "loadkey", "startstop", "match", "subst"}
 	// often everybody hammers the same API family
 	focus := ""
 	if rapid.Bool().Draw(t, "focus") {
@@ -64,7 +64,7 @@ func c16Gen(t *rapid.T) c16Case {
 			}
 			reps := 1
 			switch k {
-			case "sign", "verifysig", "dumpload", "loadkey", "record":
+			case "sign", "verifysig", "dumpload", "loadkey", "record", "match", "subst":
 				reps = rapid.SampledFrom([]int{1, 1, 5, 20, 40}).Draw(t, "reps")
 			}
 			arg := rapid.IntRange(0, 7).Draw(t, "arg")
@@ -169,6 +169,32 @@ func c16Once(st *c16State, op c16Op, g, i int, mode string) string {
 		}
 		l, _ := md.GetPayload().(intoto.Link)
 		return res(map[string]any{"m": l.Materials, "p": l.Products, "rv": l.ByProducts["return-value"], "out": l.ByProducts["stdout"]}, md.VerifySignature(hx.PoolKey(st.keyN).Pub()))
+	case "startstop":
+		key := hx.PoolKey(st.keyN).Full()
+		pre, err := intoto.InTotoRecordStart("rs", []string{st.tree}, key, []string{"sha256"}, nil, []string{st.tree + "/"}, op.Arg%2 == 0, op.Arg%3 != 0, op.Arg%4 >= 2)
+		if err != nil {
+			return "error"
+		}
+		_ = os.WriteFile(filepath.Join(st.tree, fmt.Sprintf("recorded-%d-%d.txt", g, i)), []byte("between start and stop\r\n"), 0o644)
+		md, err := intoto.InTotoRecordStop(pre, []string{st.tree}, key, []string{"sha256"}, nil, []string{st.tree + "/"}, op.Arg%2 == 0, op.Arg%3 != 0, op.Arg%4 >= 2)
+		if err != nil {
+			return "error"
+		}
+		l, _ := md.GetPayload().(intoto.Link)
+		return res(map[string]any{"m": l.Materials, "p": l.Products}, md.VerifySignature(hx.PoolKey(st.keyN).Pub()))
+	case "match":
+		// the link lists one file that is not there, misses one that is, and has another digest for a third
+		link := intoto.Link{Products: map[string]intoto.HashObj{"ghost.txt": {"sha256": "00"}, "sub/b.txt": {"sha256": "ff"}, "sub/deep/c.bin": {"sha256": hx.Sha256Hex("\x00\x01c")}}}
+		only, not, differ, err := intoto.InTotoMatchProducts(&link, []string{st.tree}, []string{"sha256"}, nil, []string{st.tree + "/"})
+		sort.Strings(only)
+		sort.Strings(not)
+		sort.Strings(differ)
+		return res(map[string]any{"only": only, "not": not, "differ": differ}, err)
+	case "subst":
+		lay := intoto.Layout{Type: "layout", Steps: []intoto.Step{{Type: "step", SupplyChainItem: intoto.SupplyChainItem{Name: "s", ExpectedMaterials: [][]string{{"ALLOW", fmt.Sprintf("{DIR}/g%d/*", g)}}, ExpectedProducts: [][]string{{"CREATE", "{OUT}"}}}, ExpectedCommand: []string{"make", "{OUT}"}}},
+			Inspect: []intoto.Inspection{{Type: "inspection", Run: []string{"check", "{DIR}"}, SupplyChainItem: intoto.SupplyChainItem{Name: "i", ExpectedMaterials: [][]string{{"ALLOW", "*"}}, ExpectedProducts: [][]string{{"ALLOW", "{OUT}"}}}}}}
+		out, err := intoto.SubstituteParameters(lay, map[string]string{"DIR": fmt.Sprintf("dir-%d", g), "OUT": fmt.Sprintf("out-%d-%d", g, i)})
+		return res(out, err)
 	case "sign":
 		link := intoto.Link{Type: "link", Name: fmt.Sprintf("l-%d-%d", g, i), Materials: map[string]intoto.HashObj{}, Products: map[string]intoto.HashObj{"x": {"sha256": "aa"}},
 			ByProducts: map[string]any{"stdout": fmt.Sprintf("goroutine %d\nop %d\ttab\r\n", g, i), "return-value": float64(0)}, Command: []string{"make\n", "all"}, Environment: map[string]any{}}
@@ -616,7 +642,7 @@ func TestC16(t *testing.T) {
 	hx.Assume("InTotoVerify without a run directory depends on the process working directory and is therefore not an independent call; the run-directory entry point with uniquely named inspections is used")
 	hx.Check[c16Case]{
 		Property: "C16", Part: "mixes",
-		Rule:  "2-12 (thorough 32) goroutines, each with a private directory tree (with or without file/directory symlinks incl. a file symlink reachable on two ways), private metadata, keys and verification world, and 1-4 operations from RecordArtifacts / InTotoRun / Sign / VerifySignature / Dump+LoadMetadata / LoadKey / InTotoVerifyWithDirectory, often all on the same API family; sequential execution gives the expected results, the concurrent execution (start barrier, optional yields, GOMAXPROCS 1/2/4/16, several rounds) must give equal results and no race-detector report; non-trivial = two goroutines overlapping in time inside the same API family (measured); distinct by case JSON",
+		Rule:  "2-12 (thorough 32) goroutines, each with a private directory tree (with or without file/directory symlinks incl. a file symlink reachable on two ways), private metadata, keys and verification world, and 1-4 operations from RecordArtifacts / InTotoRun / InTotoRecordStart+Stop / InTotoMatchProducts / SubstituteParameters / Sign / VerifySignature / Dump+LoadMetadata / LoadKey / InTotoVerifyWithDirectory, often all on the same API family; sequential execution gives the expected results, the concurrent execution (start barrier, optional yields, GOMAXPROCS 1/2/4/16, several rounds) must give equal results and no race-detector report; non-trivial = two goroutines overlapping in time inside the same API family (measured); distinct by case JSON",
 		Cases: hx.Pick(40, 1500),
 		Gen:   c16Gen, Run: c16Run,
 	}.Execute(t)
